@@ -38,7 +38,7 @@ NQ = 3
 
 
 def cases(tier, seed):
-    n = 160 if tier == "quick" else 6000
+    n = 160 if tier == "quick" else 30000
     out = [{"sub": "repo_tests", "tier": tier}]
     out += [{"sub": "fermion", "i": i} for i in range(n)]
     out += [{"sub": "qubit", "i": i} for i in range(n)]
